@@ -80,11 +80,16 @@ NestCases     == {K(k, <<OPEN, OPEN>> \o f \o <<CLOSE, CLOSE>>) : k \in ShallowK
 PointPool     == {<<OPEN, CLOSE>>, <<OPEN, 0, CLOSE>>, P(0, 0), P(1, F), P(2, 0), P(-1, 0), P(0, F + 1), P(0, -1), <<OPEN, 1, 2, 3, CLOSE>>}
 PointLists    == UNION {[1..m -> PointPool] : m \in 0..3}
 PointCases    == {K(k, L(ps)) : k \in {"LineString", "MultiPoint"}, ps \in PointLists}
+\* every list of 0..3 members over a small pool, for the two nested levels of polygons (ring-less members in every position)
+RingPool      == {<<OPEN, CLOSE>>, Ring3, L(<<P(0, 0), P(1, 1)>>), Hole}
+PolyPool      == {<<OPEN, CLOSE>>, L(<<Ring3>>), L(<<Ring5, Hole>>), L(<<<<OPEN, CLOSE>>>>)}
+MemberCases   == {K("Polygon", L(rs)) : rs \in UNION {[1..m -> RingPool] : m \in 0..3}}
+                 \cup {K("MultiPolygon", L(ps)) : ps \in UNION {[1..m -> PolyPool] : m \in 0..3}}
 SkelCases     == Skeletons
 CrossCases    == {K(k, sk.toks) : k \in Kinds, sk \in Skeletons}
 Edits1(s)     == {x \in Edits(s) : Len(x) >= 1}
 BaseCases     == IF Cov THEN ScalarCases \cup SkelCases \cup CrossCases
-                 ELSE FlatCases \cup ScalarCases \cup NestCases \cup PointCases \cup SkelCases \cup CrossCases
+                 ELSE FlatCases \cup ScalarCases \cup NestCases \cup PointCases \cup MemberCases \cup SkelCases \cup CrossCases
 \* number of successive single-position faults applied to a base case (skeletons only)
 Budget(c)     == IF c \notin Skeletons THEN 0
                  ELSE IF Cov THEN (IF c.kind \in {"Point", "LineString", "MultiLineString"} THEN 1 ELSE 0)
@@ -134,7 +139,11 @@ LawNormalKeepsPoints ==
                                    /\ n[2] + n[4] = toks[2] + toks[4] /\ n[3] + n[5] = toks[3] + toks[5]
         [] OTHER -> n = toks
 LawStrictOnlyMulti == (AtStart /\ vd[2] /\ ~vd[1]) => kind = "MultiLineString"
-LawLooseOnlyPoly   == (AtStart /\ vd[3] /\ ~vd[2]) => kind \in {"Polygon", "MultiPolygon"}
+LawLooseIsDoc      == AtStart => vd[3] = vd[2]                           \* nothing but the multi-line ordering is open
+\* a polygon without a ring is invalid under every reading, wherever it stands among its siblings
+LawRinglessInvalid == (AtStart /\ kind \in {"Polygon", "MultiPolygon"} /\ WellFormed(toks) /\ Typed(toks, KindDepth(kind))) =>
+    LET polys == IF kind = "Polygon" THEN <<toks>> ELSE Kids(toks)
+    IN  (\E i \in DOMAIN polys : Len(Kids(polys[i])) = 0) => ~vd[3]
 \* termination without a liveness graph: every step lowers a natural-number rank, and no state short of Done is stuck
 Rank == bud + (CASE pc = "gen" -> 5 [] pc = "type" -> 4 [] pc = "v1" -> 3 [] pc = "v2" -> 2 [] OTHER -> 1)
 RankDecreases == [][Rank' < Rank /\ Rank' >= 1]_vars
